@@ -884,6 +884,13 @@ int main(int argc, char **argv) {
                 SlotBase *s = newSlot(w[2], w[3], n);
                 if (s) { slots[a].reset(s); out << "R ok\n"; s->dump(out, a); ok = true; }
             }
+        } else if (verb == "tokenise" && w.size() == 2) {
+            // io::findEdgeFromString on one line (hex), default separators
+            std::string line;
+            if (fromHex(w[1], line)) {
+                out << "R " << guard([&] { auto t = io::findEdgeFromString(line); return "ok " + toHex(t[0]) + " " + toHex(t[1]) + " " + toHex(t[2]); }) << "\n";
+                ok = true;
+            }
         } else if (verb == "findsource") {
             // algorithms::findSourceVertex on an arbitrary distance vector (`-` = empty)
             std::vector<size_t> d;
